@@ -1147,10 +1147,17 @@ class CanBeVaries(Element):
                 raise OperationNotAllowed("Cannot override datatype in strict mode")
             # in TOLERANT we overwrite it only if the given one is not None
             elif datatype is not None:
-                self.datatype = datatype
+                self._set_datatype_or_detach(datatype)
         else:
-            self.datatype = datatype
+            self._set_datatype_or_detach(datatype)
             self.name = self.datatype
+
+    def _set_datatype_or_detach(self, datatype):
+        try:
+            self.datatype = datatype
+        except Exception:
+            self.parent = None  # refused: the element does not stay attached to the parent it was given
+            raise
 
     def _find_structure(self, reference=None):
         if self.name is not None or reference is not None:
@@ -1457,7 +1464,11 @@ class Field(SupportComplexDataType):
             raise OperationNotAllowed("Cannot assign a different datatype with strict validation")
 
         if datatype is not None:  # force the datatype to be the one chosen by the user
-            self.datatype = datatype
+            try:
+                self.datatype = datatype
+            except Exception:
+                self.parent = None  # refused: the element does not stay attached to the parent it was given
+                raise
         elif self.name is None:  # if it is unknown and no datatype has been given
             self.datatype = None
 
